@@ -1,6 +1,7 @@
 #!/bin/sh
 # runs the pinned suite with the verification guard (DUNE_COMMON_VERIF) OFF: the normal build of /repo/_build
 set -e
+export OMPI_ALLOW_RUN_AS_ROOT=1 OMPI_ALLOW_RUN_AS_ROOT_CONFIRM=1 OMPI_MCA_rmaps_base_oversubscribe=1
 cmake --build /repo/_build -- -k 0 >/dev/null 2>&1 || cmake --build /repo/_build
 cmake --build /repo/_build --target build_tests >/dev/null 2>&1 || true
 ctest --test-dir /repo/_build -j8 --timeout 900
